@@ -53,7 +53,7 @@ def main():
         ok_without = True
         for pk in demo_pkgs:
             rc, res, out = gotest_json(R, pk, run=runre)
-            ok_without &= (rc == 0 and res and all(v == "pass" for v in res.values()))
+            ok_without &= bool(rc == 0 and res and all(v == "pass" for v in res.values()))
         meta["confirmed"]["demo_passes_without_change"] = ok_without
         rc, out = sh(f"git apply {src}/patch.diff", cwd=R)
         meta["confirmed"]["patch_applies"] = rc == 0
